@@ -46,13 +46,13 @@ use vmon_core::{catch, fnv, json, ChildCtx, Shard, Value};
 
 type G1 = ArCurve;
 type Fr = <G1 as Curve>::Scalar;
-type Attr = Web3IdAttribute;
+pub(crate) type Attr = Web3IdAttribute;
 
-fn global() -> &'static GlobalContext<ArCurve> {
+pub(crate) fn global() -> &'static GlobalContext<ArCurve> {
     static G: OnceLock<GlobalContext<ArCurve>> = OnceLock::new();
     G.get_or_init(|| GlobalContext::generate(String::from("vmon_genesis_string")))
 }
-fn other_global() -> &'static GlobalContext<ArCurve> {
+pub(crate) fn other_global() -> &'static GlobalContext<ArCurve> {
     static G: OnceLock<GlobalContext<ArCurve>> = OnceLock::new();
     G.get_or_init(|| GlobalContext::generate(String::from("another_genesis_string")))
 }
@@ -61,7 +61,7 @@ fn other_global() -> &'static GlobalContext<ArCurve> {
 
 /// documented embedding: String = length byte (most significant) followed by
 /// the bytes right aligned in 31 bytes; Numeric = the integer
-fn enc(a: &Attr) -> BigUint {
+pub(crate) fn enc(a: &Attr) -> BigUint {
     match a {
         Attr::String(s) => {
             let b = s.as_ref().as_bytes();
@@ -75,14 +75,14 @@ fn enc(a: &Attr) -> BigUint {
 fn two64() -> BigUint { BigUint::from(1u8) << 64 }
 
 #[derive(Clone, Copy, PartialEq, Eq, Debug)]
-enum Truth {
+pub(crate) enum Truth {
     True,
     False,
     /// true but outside what the library documents as provable
     TrueNotDemanded,
 }
 
-fn truth<T: Clone + Ord + concordium_base::common::Serialize>(st: &AtomicStatement<G1, T, Attr>, attrs: &BTreeMap<T, Attr>) -> Truth {
+pub(crate) fn truth<T: Clone + Ord + concordium_base::common::Serialize>(st: &AtomicStatement<G1, T, Attr>, attrs: &BTreeMap<T, Attr>) -> Truth {
     let v = match attrs.get(&match st {
         AtomicStatement::RevealAttribute { statement } => statement.attribute_tag.clone(),
         AtomicStatement::AttributeInRange { statement } => statement.attribute_tag.clone(),
@@ -130,12 +130,12 @@ fn truth<T: Clone + Ord + concordium_base::common::Serialize>(st: &AtomicStateme
 
 const CH: &[u8] = b"0123456789ABCXYZabcxyz -";
 
-fn gen_string(r: &mut CRng, len: usize) -> Attr {
+pub(crate) fn gen_string(r: &mut CRng, len: usize) -> Attr {
     let s: String = (0..len).map(|_| *r.0.pick(CH) as char).collect();
     Attr::String(AttributeKind::try_new(s).expect("<= 31"))
 }
 
-fn gen_attr(r: &mut CRng) -> Attr {
+pub(crate) fn gen_attr(r: &mut CRng) -> Attr {
     match r.0.below(6) {
         0 => Attr::Numeric(r.0.u64v()),
         1 => Attr::Numeric(r.0.below(1000)),
@@ -150,7 +150,7 @@ fn gen_attr(r: &mut CRng) -> Attr {
 }
 
 /// the attribute whose encoding is enc(v) + d (d = +1 / -1), same kind and length, if representable
-fn neighbour(v: &Attr, up: bool) -> Option<Attr> {
+pub(crate) fn neighbour(v: &Attr, up: bool) -> Option<Attr> {
     match v {
         Attr::Numeric(n) => if up { n.checked_add(1) } else { n.checked_sub(1) }.map(Attr::Numeric),
         Attr::String(s) => {
@@ -174,7 +174,7 @@ fn neighbour(v: &Attr, up: bool) -> Option<Attr> {
 }
 
 /// another attribute of the same kind (and length) as v, different from v
-fn same_kind(r: &mut CRng, v: &Attr) -> Attr {
+pub(crate) fn same_kind(r: &mut CRng, v: &Attr) -> Attr {
     for _ in 0..20 {
         let c = match v {
             Attr::Numeric(n) => Attr::Numeric(if r.0.chance(1, 2) { r.0.u64v() } else { n.wrapping_add(1 + r.0.below(50)) }),
@@ -189,7 +189,7 @@ fn same_kind(r: &mut CRng, v: &Attr) -> Attr {
 }
 
 /// (statement, label). `want_true`: Some(true/false) steers the ground truth.
-fn gen_statement<T: Clone + Ord + concordium_base::common::Serialize>(r: &mut CRng, tag: &T, v: &Attr, want_true: bool) -> (AtomicStatement<G1, T, Attr>, &'static str) {
+pub(crate) fn gen_statement<T: Clone + Ord + concordium_base::common::Serialize>(r: &mut CRng, tag: &T, v: &Attr, want_true: bool) -> (AtomicStatement<G1, T, Attr>, &'static str) {
     let kind = r.0.below(if want_true { 4 } else { 3 });
     match kind {
         // range
@@ -288,7 +288,7 @@ fn gen_statement<T: Clone + Ord + concordium_base::common::Serialize>(r: &mut CR
 }
 
 /// Alter a statement (any alteration; the statement proved and the statement checked then differ).
-fn alter_statement<T: Clone + Ord + concordium_base::common::Serialize>(r: &mut CRng, st: &AtomicStatement<G1, T, Attr>, other_tag: Option<&T>) -> Option<(AtomicStatement<G1, T, Attr>, &'static str)> {
+pub(crate) fn alter_statement<T: Clone + Ord + concordium_base::common::Serialize>(r: &mut CRng, st: &AtomicStatement<G1, T, Attr>, other_tag: Option<&T>) -> Option<(AtomicStatement<G1, T, Attr>, &'static str)> {
     let (s, w) = alter_statement_(r, st, other_tag)?;
     if to_bytes(&s) == to_bytes(st) {
         return None;
@@ -338,7 +338,7 @@ fn alter_statement_<T: Clone + Ord + concordium_base::common::Serialize>(r: &mut
 
 fn stmt_json<T: serde::Serialize + concordium_base::common::Serialize>(s: &[AtomicStatement<G1, T, Attr>]) -> Value { serde_json::to_value(s).unwrap_or(json!("<unserializable>")) }
 
-fn attrs_json<T: std::fmt::Debug>(a: &BTreeMap<T, Attr>) -> Value { json!(a.iter().map(|(k, v)| format!("{:?} = {}", k, v)).collect::<Vec<_>>()) }
+pub(crate) fn attrs_json<T: std::fmt::Debug>(a: &BTreeMap<T, Attr>) -> Value { json!(a.iter().map(|(k, v)| format!("{:?} = {}", k, v)).collect::<Vec<_>>()) }
 
 // ---------------------------------------------------------------- part A: id statements
 
@@ -1015,10 +1015,15 @@ pub fn run(ctx: &ChildCtx, sh: &mut Shard) {
     for idx in ctx.indices() {
         ctx.begin_case(idx);
         let mut r = CRng(ctx.case_rng(idx));
-        if idx % 2 == 0 {
-            id_statement_case(ctx, sh, idx, &mut r);
-        } else {
-            presentation_case(ctx, sh, idx, &mut r);
+        match idx % 8 {
+            0 | 2 | 4 => id_statement_case(ctx, sh, idx, &mut r),
+            1 | 3 | 5 => presentation_case(ctx, sh, idx, &mut r),
+            6 => {
+                // two independent presentations per case (the second continues the case PRNG)
+                crate::c18v1::v1_presentation_case(ctx, sh, idx, 0, &mut r);
+                crate::c18v1::v1_presentation_case(ctx, sh, idx, 1, &mut r);
+            }
+            _ => crate::c18v1::anchored_case(ctx, sh, idx, &mut r),
         }
     }
 }
